@@ -376,5 +376,7 @@ pub fn def() -> PropertyDef {
         witnesses: vec![],
         exhaustive: Some(exhaustive),
         exhaustive_in_quick: true,
+        custom: None,
+        custom_replay: None,
     }
 }
